@@ -245,31 +245,45 @@ pub fn check_reruns(c: &RerunCase) -> Verdict {
     Verdict::Pass(Pass { nontrivial: c.runs.len() >= 3, key: key_of(c), classes, known: vec![], sub_evals: n, sample: Some(sample), extra_keys: vec![] })
 }
 
-/// Two DIFFERENT data directories are processed alternately (A, B, A, B, A) by the same user: same HOME, same TMPDIR,
+/// Several DIFFERENT data directories are processed in a generated order by the same user: same HOME, same TMPDIR,
 /// and the same spelling of the directories on the command line (relative names, each run started in its own working
 /// directory). Whatever a run keeps outside its dump folder must not leak into the result of a run over another
 /// data directory: every run is compared with the model of ITS chain.
 #[derive(Clone, Debug, Serialize, Deserialize)]
 pub struct TwoDirCase {
-    pub a: ChainSpec,
-    pub b: ChainSpec,
+    pub chains: Vec<ChainSpec>,
+    /// per directory: number of extra write sessions of its index (several log / table files), small write buffer
+    pub sessions: Vec<u8>,
+    /// the directories visited, in order (indices into `chains`, taken modulo its length)
+    pub order: Vec<u8>,
     pub cb: Callback,
-    pub reopens_a: u8,
+    /// this directory's index holds a block record whose value is cut short: every run over it fails while the index is
+    /// read (must exit non-zero and leave no final-named file) - and must not disturb the runs over the other directories
+    #[serde(default)]
+    pub broken: Option<u8>,
 }
 
 pub fn check_two_dirs(c: &TwoDirCase) -> Verdict {
-    let (ba, bb) = (c.a.build(), c.b.build());
-    let mut pa = canonical_plan(ba.coin, &ba.blocks);
-    // A's index went through several sessions (several log / table files), B's through one
-    pa.ldb_reopens = c.reopens_a;
-    pa.ldb_small_buffer = c.reopens_a % 2 == 1;
-    let mut pb = canonical_plan(bb.coin, &bb.blocks);
-    let wa = infra!(World::create("c13a", &mut pa));
-    let wb = infra!(World::create("c13b", &mut pb));
-    let shared = wa.scratch.path.join("user");
+    let builts: Vec<vpmodel::spec::Built> = c.chains.iter().map(|ch| ch.build()).collect();
+    let mut worlds = Vec::new();
+    for (k, b) in builts.iter().enumerate() {
+        let mut p = canonical_plan(b.coin, &b.blocks);
+        let sess = c.sessions.get(k).copied().unwrap_or(0);
+        p.ldb_reopens = sess % 4;
+        p.ldb_small_buffer = sess & 4 != 0;
+        p.ldb_history = sess & 8 != 0;
+        if c.broken.map(|x| x as usize % builts.len()) == Some(k) {
+            let mut key = vec![b'b'];
+            key.extend([0x77u8; 32]);
+            p.raw_kv.push((key, vec![0x80, 0x80]));
+        }
+        worlds.push(infra!(World::create("c13m", &mut p)));
+    }
+    let shared = worlds[0].scratch.path.join("user");
     let mut runs = 0;
-    for k in 0..5 {
-        let (w, built) = if k % 2 == 0 { (&wa, &ba) } else { (&wb, &bb) };
+    for (n, pick) in c.order.iter().enumerate() {
+        let k = *pick as usize % worlds.len();
+        let (w, built) = (&worlds[k], &builts[k]);
         let mut o = RunOpts::new(built.coin, c.cb);
         o.path_style = 1;
         o.state_dir = Some(shared.clone());
@@ -278,12 +292,18 @@ pub fn check_two_dirs(c: &TwoDirCase) -> Verdict {
         if let Some(v) = timed_out_is_infra(&out) {
             return v;
         }
+        if c.broken.map(|x| x as usize % builts.len()) == Some(k) {
+            if out.ok() || !out.final_files().is_empty() {
+                return Verdict::Fail(format!("run #{} over the directory whose index holds a truncated block record: exit ok = {}, final-named files {:?}", n + 1, out.ok(), out.final_files()));
+            }
+            continue;
+        }
         let all = built.all();
-        holds!(check_callback(c.cb, built.coin, &all, &out, 0).map_err(|m| format!("run #{} (data directory {}, {}) after runs over the other data directory with the same HOME / TMPDIR / -d spelling: {}", k + 1, if k % 2 == 0 { "A" } else { "B" }, c.cb.cli(), m)));
+        holds!(check_callback(c.cb, built.coin, &all, &out, 0).map_err(|m| format!("run #{} (data directory {} of {}, {}) after runs over other data directories with the same HOME / TMPDIR / -d spelling (order {:?}): {}", n + 1, k, worlds.len(), c.cb.cli(), c.order, m)));
     }
-    let classes = vec![format!("cb={}", c.cb.cli()), format!("same-coin={}", ba.coin == bb.coin), format!("index-sessions-A={}", c.reopens_a + 1)];
-    let sample = serde_json::json!({"coin_a": ba.coin.cli(), "coin_b": bb.coin.cli(), "tip_a": ba.tip(), "tip_b": bb.tip(), "callback": c.cb.cli(), "order": "A B A B A"});
-    Verdict::Pass(Pass { nontrivial: true, key: key_of(c), classes, known: vec![], sub_evals: runs, sample: Some(sample), extra_keys: vec![] })
+    let classes = vec![format!("cb={}", c.cb.cli()), format!("directories={}", worlds.len()), format!("max-index-sessions={}", c.sessions.iter().map(|s| s % 4 + 1).max().unwrap_or(1))];
+    let sample = serde_json::json!({"coins": builts.iter().map(|b| b.coin.cli()).collect::<Vec<_>>(), "tips": builts.iter().map(|b| b.tip()).collect::<Vec<_>>(), "callback": c.cb.cli(), "order": c.order});
+    Verdict::Pass(Pass { nontrivial: worlds.len() >= 2 && c.order.len() >= 3, key: key_of(c), classes, known: vec![], sub_evals: runs, sample: Some(sample), extra_keys: vec![] })
 }
 
 /// The same data directory, holding competing index records (stale siblings, failed blocks, reorged-out
@@ -326,11 +346,14 @@ fn run(eng: &Engine, a: &Args) {
     eng.explore("same-directory-repeated", scaled(if a.tier == Tier::Quick { 64 } else { 800 }, a), move || crate::c04::strategy(tier), check_repeat);
     eng.explore("two-directories-one-user", scaled(if a.tier == Tier::Quick { 48 } else { 600 }, a), move || {
         let cfg = chain_cfg(tier, false);
-        (gen::chain(&cfg), gen::chain(&cfg), proptest::sample::select(ALL_CALLBACKS.to_vec()), 0u8..4, any::<bool>()).prop_map(|(a, mut b, cb, reopens_a, same_coin)| {
+        (proptest::collection::vec(gen::chain(&cfg), 2..=4), proptest::collection::vec(0u8..16, 4), proptest::collection::vec(0u8..4, 4..=8), proptest::sample::select(ALL_CALLBACKS.to_vec()), any::<bool>()).prop_map(|(mut chains, sessions, order, cb, same_coin): (Vec<ChainSpec>, Vec<u8>, Vec<u8>, Callback, bool)| {
             if same_coin {
-                b.coin = a.coin;
+                let c0 = chains[0].coin;
+                for ch in chains.iter_mut() {
+                    ch.coin = c0;
+                }
             }
-            TwoDirCase { a, b, cb, reopens_a }
+            { let broken = if sessions[3] % 3 == 0 { Some(sessions[2]) } else { None }; TwoDirCase { chains, sessions, order, cb, broken } }
         }).boxed()
     }, check_two_dirs);
     eng.explore("threads", scaled(nt, a), move || thread_strategy(tier), check_threads);
